@@ -55,7 +55,7 @@ func (c17) ID() string { return "C17" }
 
 func (c17) EnumSize(tier string) int {
 	// single panic placements: (hooks x values + nil-finish hooks) x requests x extension configs x entries(2), plus the panic-free runs
-	return (len(c17Hooks)*len(c17Values)+len(c17NilFinish)+1)*len(c17Reqs)*len(c17ExtConf)*2
+	return (len(c17Hooks)*len(c17Values) + len(c17NilFinish) + 1) * len(c17Reqs) * len(c17ExtConf) * 2
 }
 
 func extName(i int) string { return fmt.Sprintf("E%d", i+1) }
